@@ -32,7 +32,7 @@ import runs  # noqa: E402
 
 FAULTCMD = os.path.join(common.VERIF, 'build', 'faultcmd')
 KINDS = {'hang': 'h1', 'spin': 's1', 'alloc': 'a1', 'signal': 'k1',
-         'grand': 'g1'}
+         'grand': 'g1', 'slow': 'w1'}
 
 
 def build_cmd():
@@ -138,7 +138,8 @@ def main():
     rep = common.Report('C10', 'fault_enumeration', a.tier)
     rep.cov['rule'] = (
         'model: all behaviours of Exec.tla; runs: placements of <= 3 of the '
-        'five fault kinds (hang, spin, alloc, signal, grandchild) in the '
+        'six fault kinds (hang, spin, alloc, signal, grandchild, overrun by '
+        'less than a second) in the '
         'input x strategy x -j 1/2 x explicit (0.3 s) or derived time limit; '
         'one evaluation per executed command; non-trivial = executions that '
         'hit a fault; distinct by (configuration, execution)')
@@ -159,7 +160,9 @@ def main():
         for strategy in ('ddmin', 'hierarchical', 'hybrid'):
             for jobs in (1, 2):
                 cfgs.append((ks, strategy, jobs, True))
-        cfgs.append((ks, 'hybrid', 2, False))
+        if 'slow' not in ks:
+            # (0.65 s is within every derived limit: not a fault there)
+            cfgs.append((ks, 'hybrid', 2, False))
     if a.replay:
         with open(a.replay) as f:
             c = json.load(f)['replay']['cfg']
@@ -169,6 +172,8 @@ def main():
         explicit = [c for c in cfgs if c[3]]
         derived = [c for c in cfgs if not c[3] and len(c[0]) == 1]
         cfgs = r.sample(explicit, 20) + r.sample(derived, 3)
+        cfgs += [(('slow', ), 'ddmin', 1, True),
+                 (('slow', 'hang'), 'hierarchical', 2, True)]
     if not a.replay:
         # a cross-check command with its own derived limit
         cfgs += [(('hang', ), 'hybrid', 2, False, True),
